@@ -10,7 +10,7 @@ from . import core, diffprop
 class ChanSpec(diffprop.Spec):
     controlled = True
     # (scenarios, random schedules each, dfs scenarios, dfs preemption bound, dfs cap)
-    budgets = dict(quick=(60, 12, 6, 2, 400), thorough=(1500, 40, 60, 3, 4000))
+    budgets = dict(quick=(60, 12, 6, 2, 400), thorough=(1000, 30, 40, 3, 2000))
     counts = dict(quick=1, thorough=1)
     escalate_factor = 2
     harness_timeout = dict(quick=240, thorough=3000)
